@@ -909,7 +909,7 @@ def s_is_empty(I_, st, path, c, args, t, depth):
     return None
 
 
-RANGE_BOUND = 3
+RANGE_BOUND = 4
 
 
 def _range_iter(tv):
